@@ -12,10 +12,11 @@ verus! {
 #[verifier::external_body] pub struct ValueV { x: usize }          // Value
 #[verifier::external_body] pub struct ArgsV { x: usize }           // FunctionArguments
 #[verifier::external_body] pub struct IndexV { x: usize }          // Index
+#[verifier::external_body] pub struct ChainV { x: usize }          // DotChain: `.field`, `.method(args)` links
 pub enum CallableContents { ToSelf { arguments: ArgsV, x: OtherV }, Standard { lhs_raw: Box<Expr>, arguments: ArgsV, x: OtherV } }
 pub enum Expr {
     Value(ValueV), UnaryMinus(Box<Expr>), UnaryNot(Box<Expr>), BinOp { lhs: Box<Expr>, rhs: Box<Expr>, op: OtherV }, Callable(CallableContents),
-    Index { lhs_raw: Box<Expr>, index: IndexV }, DotLookup { lhs: Box<Expr>, x: OtherV }, ReferenceToSelf(OtherV), ReferenceToConstructor(OtherV), Nil,
+    Index { lhs_raw: Box<Expr>, index: IndexV }, DotLookup { lhs: Box<Expr>, dot_chain: ChainV, expected_type: OtherV }, ReferenceToSelf(OtherV), ReferenceToConstructor(OtherV), Nil,
     UnaryUnwrap { value: Box<Expr>, span: OtherV }, NilEval { primary: Box<Expr>, fallback: Box<Expr> }, Typeof(Box<Expr>, OtherV),
 }
 // net dependencies of a part (the recursive / foreign calls: abstract, as sets -- the order is irrelevant to capturing)
@@ -23,9 +24,11 @@ pub uninterp spec fn nd_expr(e: Expr) -> Set<Dep>;
 pub uninterp spec fn nd_value(v: ValueV) -> Set<Dep>;
 pub uninterp spec fn nd_args(a: ArgsV) -> Set<Dep>;
 pub uninterp spec fn nd_index(i: IndexV) -> Set<Dep>;
+pub uninterp spec fn nd_chain(c: ChainV) -> Set<Dep>;
 impl Expr { #[verifier::external_body] pub fn net_dependencies(&self) -> (r: Vec<Dep>) ensures r@.to_set() == nd_expr(*self) { unimplemented!() } }
 impl ValueV { #[verifier::external_body] pub fn net_dependencies(&self) -> (r: Vec<Dep>) ensures r@.to_set() == nd_value(*self) { unimplemented!() } }
 impl ArgsV { #[verifier::external_body] pub fn net_dependencies(&self) -> (r: Vec<Dep>) ensures r@.to_set() == nd_args(*self) { unimplemented!() } }
+impl ChainV { #[verifier::external_body] pub fn net_dependencies(&self) -> (r: Vec<Dep>) ensures r@.to_set() == nd_chain(*self) { unimplemented!() } }
 impl IndexV { #[verifier::external_body] pub fn net_dependencies(&self) -> (r: Vec<Dep>) ensures r@.to_set() == nd_index(*self) { unimplemented!() } }
 // what an expression depends on: everything any of its parts depends on -- BOTH operands, the callee AND the arguments, the indexed value
 // AND the index, the optional AND its `or` fallback
@@ -37,7 +40,8 @@ pub open spec fn expr_deps(e: Expr) -> Set<Dep> {
         Expr::Callable(CallableContents::ToSelf { arguments, .. }) => nd_args(arguments),
         Expr::Callable(CallableContents::Standard { lhs_raw, arguments, .. }) => nd_expr(*lhs_raw).union(nd_args(arguments)),
         Expr::Index { lhs_raw, index } => nd_expr(*lhs_raw).union(nd_index(index)),
-        Expr::DotLookup { lhs, .. } => nd_expr(*lhs),
+        // the receiver AND the arguments of every method call in the chain
+        Expr::DotLookup { lhs, dot_chain, .. } => nd_expr(*lhs).union(nd_chain(dot_chain)),
         Expr::ReferenceToSelf(_) | Expr::ReferenceToConstructor(_) | Expr::Nil => Set::<Dep>::empty(),
         Expr::UnaryUnwrap { value, .. } => nd_expr(*value),
         Expr::NilEval { primary, fallback } => nd_expr(*primary).union(nd_expr(*fallback)),
